@@ -349,6 +349,15 @@ def step (b : Book) (w : List String) : Book × String :=
       let num := match Ref.columnNameToNumber col with | .ok v => v | .error _ => 0
       structural b i m (.del .cols num) (fun s => removeColG true s col)
     | none => (b, "bad-op")
+  | ["duprow", i, row, row2] =>
+    match i.toNat?, row.toInt?, row2.toInt? with
+    | some i, some row, some row2 =>
+      match b[i]? with
+      | none => (b, "E_SHEET")
+      | some pre =>
+        let (st, post) := duplicateRowToG true pre row row2
+        (setAt b i post, s!"{st.tag} {dumpSheet post}")
+    | _, _, _ => (b, "bad-op")
   | ["others", i] =>
     match i.toNat? with
     | some i =>
